@@ -222,4 +222,135 @@ def iq (c : Core α) (r : α) : Except String α := do
 
 end SpheroPolyhedron
 
+/-! ### mutators (deepening round): `_rescale`, the radius setter and the size setters as state
+transformers, and histories (sequences of mutators) -/
+
+/-- one row of `self._vertices *= scale` -/
+def scaleV (k : α) (v : V3 α) : V3 α := ⟨v.x * k, v.y * k, v.z * k⟩
+
+/-- `ConvexPolyhedron._rescale(scale_factor)` on what the curvature code reads:
+    `_vertices *= k; _equations[:, 3] *= k` (the normals `[:, :3]` stay);
+    `_volume = _volume * k**3; _area = _area * k**2`; `_faces` (hence the face intersections) stay. -/
+def Core.rescale (c : Core α) (k : α) : Core α :=
+  ⟨c.vertices.map (scaleV k), c.normals, c.fi, c.volume * cube k, c.area * sqr k⟩
+
+namespace SpheroPolyhedron
+
+/-- a `ConvexSpheropolyhedron` object: `_polyhedron` and `_radius` -/
+structure State (α : Type) where
+  core : Core α
+  radius : α
+
+/-- `radius.setter` -/
+def State.setRadius (s : State α) (v : α) : Except String (State α) := do
+  let r ← Steiner.setRadius v
+  pure ⟨s.core, r⟩
+
+/-- `_rescale(scale)`: `self.polyhedron._rescale(scale); self.radius *= scale` (the second statement
+    goes through the radius setter; if it raises the core has ALREADY been rescaled in the Python —
+    the model returns the error only) -/
+def State.rescale (s : State α) (k : α) : Except String (State α) := do
+  let r ← Steiner.setRadius (s.radius * k)
+  pure ⟨s.core.rescale k, r⟩
+
+/-- `volume.setter`: `if not value > 0: raise ValueError; scale = (value / self.volume) ** (1 / 3)` -/
+def State.setVolume (s : State α) (v : α) : Except String (State α) :=
+  if lit 0 < v then do
+    let cur ← volume s.core s.radius
+    s.rescale (Scalar.cbrt (v / cur))
+  else throw "ValueError"
+
+/-- `surface_area.setter`: `if value > 0: scale = np.sqrt(value / self.surface_area)` -/
+def State.setSurfaceArea (s : State α) (v : α) : Except String (State α) :=
+  if lit 0 < v then do
+    let cur ← surfaceArea s.core s.radius
+    s.rescale (Scalar.sqrt (v / cur))
+  else throw "ValueError"
+
+/-- `mean_curvature.setter`: `if value > 0: scale = value / self.mean_curvature` -/
+def State.setMeanCurvature (s : State α) (v : α) : Except String (State α) :=
+  if lit 0 < v then do
+    let cur ← meanCurvature s.core s.radius
+    s.rescale (v / cur)
+  else throw "ValueError"
+
+/-- one mutator call -/
+inductive Op (α : Type) where
+  | setRadius (v : α)
+  | rescale (k : α)
+  | setVolume (v : α)
+  | setSurfaceArea (v : α)
+  | setMeanCurvature (v : α)
+
+def State.apply (s : State α) : Op α → Except String (State α)
+  | .setRadius v => s.setRadius v
+  | .rescale k => s.rescale k
+  | .setVolume v => s.setVolume v
+  | .setSurfaceArea v => s.setSurfaceArea v
+  | .setMeanCurvature v => s.setMeanCurvature v
+
+/-- a history: the mutators are applied in order, stopping at the first `raise` -/
+def State.run (s : State α) : List (Op α) → Except String (State α)
+  | [] => pure s
+  | op :: ops => do
+    let s1 ← s.apply op
+    s1.run ops
+
+end SpheroPolyhedron
+
+namespace SpheroPolygon
+
+/-- a `ConvexSpheropolygon` object: the stored vertices of `_polygon` and `_radius` -/
+structure State (α : Type) where
+  vertices : List (V3 α)
+  radius : α
+
+/-- `radius.setter` -/
+def State.setRadius (s : State α) (v : α) : Except String (State α) := do
+  let r ← Steiner.setRadius v
+  pure ⟨s.vertices, r⟩
+
+/-- `_rescale(scale)`: `self.polygon._vertices *= scale; self.radius *= scale` -/
+def State.rescale (s : State α) (k : α) : Except String (State α) := do
+  let r ← Steiner.setRadius (s.radius * k)
+  pure ⟨s.vertices.map (scaleV k), r⟩
+
+/-- `area.setter`: `if value > 0: scale = np.sqrt(value / self.area); self._rescale(scale)`;
+    `polyArea` is `Polygon.signed_area` as a function of the stored vertices -/
+def State.setArea (polyArea : List (V3 α) → α) (s : State α) (v : α) : Except String (State α) :=
+  if lit 0 < v then s.rescale (Scalar.sqrt (v / area s.vertices (polyArea s.vertices) s.radius))
+  else throw "ValueError"
+
+/-- `perimeter.setter`: `if value > 0: scale = value / self.perimeter; self._rescale(scale)` -/
+def State.setPerimeter (s : State α) (v : α) : Except String (State α) :=
+  if lit 0 < v then s.rescale (v / perimeter s.vertices s.radius)
+  else throw "ValueError"
+
+inductive Op (α : Type) where
+  | setRadius (v : α)
+  | rescale (k : α)
+  | setArea (v : α)
+  | setPerimeter (v : α)
+
+def State.apply (polyArea : List (V3 α) → α) (s : State α) : Op α → Except String (State α)
+  | .setRadius v => s.setRadius v
+  | .rescale k => s.rescale k
+  | .setArea v => s.setArea polyArea v
+  | .setPerimeter v => s.setPerimeter v
+
+def State.run (polyArea : List (V3 α) → α) (s : State α) : List (Op α) → Except String (State α)
+  | [] => pure s
+  | op :: ops => do
+    let s1 ← s.apply polyArea op
+    s1.run polyArea ops
+
+/-- the three observables of the object in its current state -/
+def State.signedArea (polyArea : List (V3 α) → α) (s : State α) : α :=
+  SpheroPolygon.signedArea s.vertices (polyArea s.vertices) s.radius
+def State.area (polyArea : List (V3 α) → α) (s : State α) : α :=
+  SpheroPolygon.area s.vertices (polyArea s.vertices) s.radius
+def State.perimeter (s : State α) : α := SpheroPolygon.perimeter s.vertices s.radius
+
+end SpheroPolygon
+
 end Steiner
